@@ -440,3 +440,5 @@ def _bounded_provide(tier, repo):
 
 REG.bounded_check("bounded#inject_returns_the_nearest_enclosing_provide", P, _bounded_provide,
                   note="ProvideNode.render / Component.inject / _render_impl are not under contract: 63 pages nesting provide blocks for 2 keys, consumers (single and sibling pairs) and a wrapper component to depth 3 x 2 modes are rendered for real and compared with the property (nearest enclosing provide; KeyError outside every provide; registries empty after a successful render)")
+
+import contracts.c05b  # noqa: E402,F401  (get_injected_context_var / set_provided_context_var)
